@@ -23,8 +23,9 @@ type c08Req struct {
 }
 
 type c08Aux struct {
-	Reqs     map[int][]*c08Req // client -> requests
-	Preserve bool
+	Reqs      map[int][]*c08Req // client -> requests
+	Preserve  bool
+	Canceller bool
 }
 
 var c08Methods = []string{"GET", "POST", "PUT", "DELETE", "PATCH", "OPTIONS", "HEAD"}
@@ -150,9 +151,16 @@ func drawC08(t *rapid.T) *Case {
 		p.Args = append(p.Args, "-preserve-host")
 	}
 	nc := rapid.IntRange(1, 3).Draw(t, "nclients")
+	// focus (12%): cancelled downloads next to streamed multi-frame downloads, frame writes
+	// held in flight by the controller - what is left behind by a cancelled stream (pooled
+	// objects, queued frames, write results) must not leak into another exchange
+	focus := drawBool(t, "cancelfocus", 12)
 	var metas []*ClientMeta
 	for ci := 0; ci < nc; ci++ {
 		proto := []string{"h2", "h1"}[rapid.IntRange(0, 1).Draw(t, "proto")]
+		if focus {
+			proto = "h2"
+		}
 		cp := &ClientPlan{ID: ci, Addr: fmt.Sprintf("198.51.100.%d:%d", 10+ci, 32000+ci), Hello: fixedHello(proto)}
 		m := &ClientMeta{Proto: proto}
 		nr := rapid.IntRange(1, 4).Draw(t, "nreq")
@@ -224,6 +232,10 @@ func drawC08(t *rapid.T) *Case {
 				rp.Body = bodyBytes("resp-"+tag, drawBodySize(t))
 				if drawBool(t, "respstream", 40) {
 					rp.Chunks = drawPieces(t, len(rp.Body), "rchunk")
+				}
+				if focus {
+					rp.Body = bodyBytes("resp-"+tag, rapid.IntRange(70000, 260000).Draw(t, "focusbody"))
+					rp.Chunks = []int{30000, 30000, 30000, 30000, 30000, 30000}
 				}
 				if len(rp.Body) > 0 && drawBool(t, "resptrailers", 25) {
 					// announced in the Trailer header, unannounced (late), or both; a trailer may have two values
@@ -299,8 +311,44 @@ func drawC08(t *rapid.T) *Case {
 		p.Clients = append(p.Clients, cp)
 		metas = append(metas, m)
 	}
+	if focus || drawBool(t, "canceller", 30) {
+		// a further HTTP/2 client that cancels large downloads part-way (its exchanges are not
+		// compared): whatever that leaves behind must not touch the other exchanges
+		ci := nc
+		cp := &ClientPlan{ID: ci, Addr: fmt.Sprintf("198.51.100.%d:%d", 10+ci, 32000+ci), Hello: fixedHello("h2")}
+		enc := NewHEnc()
+		pre := append([]byte(ClientPreface), FramesBytes(SettingsFrame(Setting{4, 1 << 30}), WindowUpdateFrame(0, 1<<30))...)
+		cp.Steps = append(cp.Steps, Step{Kind: "connect"}, Step{Kind: "write", Pieces: [][]byte{pre}})
+		k := rapid.IntRange(1, 4).Draw(t, "ncancel")
+		if focus {
+			k = 4
+		}
+		for ri := 0; ri < k; ri++ {
+			tag := fmt.Sprintf("c%d-x%d", ci, ri)
+			id := uint32(2*ri + 1)
+			r := ReqSpec{Tag: tag, Method: "GET", Path: "/cancelled/" + tag, Host: "cancel.verif.test"}
+			body := bodyBytes("resp-"+tag, rapid.IntRange(40000, 400000).Draw(t, "cancelbody"))
+			p.Backend.Resp[tag] = &RespPlan{Status: 200, Body: body, Chunks: []int{20000, 20000, 40000}}
+			cp.Steps = append(cp.Steps, Step{Kind: "write", Pieces: [][]byte{FramesBytes(H2RequestFrames(enc, id, r, nil, nil, nil, nil)...)}})
+			cp.Steps = append(cp.Steps, Step{Kind: "write", Pieces: [][]byte{FramesBytes(RSTFrame(id, ErrCancel))}})
+		}
+		cp.Steps = append(cp.Steps, Step{Kind: "write", Pieces: [][]byte{FramesBytes(PingFrame(false, [8]byte{0xfc}))}}, Step{Kind: "h2ping"}, Step{Kind: "close"})
+		p.Clients = append(p.Clients, cp)
+		metas = append(metas, &ClientMeta{Proto: "h2", Kind: "canceller"})
+		aux.Canceller = true
+	}
 	p.BackendKeepAlive = drawBool(t, "beka", 40)
 	p.Fences = drawBool(t, "fences", 25)
+	p.WriteFences = focus || drawBool(t, "writefences", 30)
+	if p.WriteFences {
+		// a response without Content-Length makes ReverseProxy flush through a
+		// maxLatencyWriter, whose mutex is held across a write that the fence keeps in
+		// flight: the handler would block on a sync.Mutex, which a synctest bubble cannot
+		// wait out (DESIGN 3.2).  Held writes therefore go with Content-Length responses.
+		for _, rp := range p.Backend.Resp {
+			rp.Trailer, rp.LateTrailer, rp.NoCL = nil, nil, false
+		}
+	}
 	p.SchedKind = []string{"", "rr", "priority", "random"}[rapid.IntRange(0, 3).Draw(t, "sched")]
 	p.Tape, p.Tail = drawTape(t, 128)
 	c := &Case{Plan: p, Metas: metas, Oracle: oracleC08, Aux: aux}
